@@ -121,6 +121,8 @@ func init() {
 		"(*regexp.Regexp).MatchString":               natRegexpMatch,
 		"(*encoding/base64.Encoding).DecodeString":   natB64Decode,
 		"(*encoding/base64.Encoding).EncodeToString": natB64Encode,
+		"internal/abi.NoEscape": natFirstArg, // identity (escape-analysis hint only)
+		"internal/bytealg.MakeNoZero": natMakeNoZero,
 		"os.Exit":         natFatal,
 		"os.Setenv":       natNoop,
 		"os.Unsetenv":     natNoop,
@@ -783,6 +785,16 @@ func natB64Decode(p *Path, g *G, fr *Frame, fv *FuncV, args []Value) (Value, int
 		vs[i] = p.tc.Const(8, uint64(c))
 	}
 	return TupleV{p.sliceFromValues(types.Typ[types.Uint8], vs), IfaceV{}}, stNext
+}
+
+// natMakeNoZero: make([]byte, n) (the runtime's uninitialised variant; zeroed here)
+func natMakeNoZero(p *Path, g *G, fr *Frame, fv *FuncV, args []Value) (Value, int) {
+	n := int(p.concInt(args[0], "MakeNoZero length"))
+	vs := make([]Value, n)
+	for i := range vs {
+		vs[i] = p.tc.Const(8, 0)
+	}
+	return p.sliceFromValues(types.Typ[types.Uint8], vs), stNext
 }
 
 func natB64Encode(p *Path, g *G, fr *Frame, fv *FuncV, args []Value) (Value, int) {
